@@ -110,7 +110,13 @@ func runStress(t *testing.T, thorough bool) []stressResult {
 		look := func(failsafe.ExecutionEvent[int]) {
 			seen.Add(int64(cb.State()) + int64(cb.Metrics().Failures()) + int64(cb.RemainingDelay()&1))
 		}
-		cb = circuitbreaker.Builder[int]().WithFailureThresholdRatio(3, 5).WithDelay(time.Microsecond).OnSuccess(look).OnFailure(look).Build()
+		// ... and the state-change listeners read the metrics their event carries, as a listener that logs a transition does
+		lookEv := func(e circuitbreaker.StateChangedEvent) {
+			m := e.Metrics()
+			seen.Add(int64(m.Executions()) + int64(m.Failures()) + int64(m.Successes()) + int64(m.FailureRate()))
+		}
+		cb = circuitbreaker.Builder[int]().WithFailureThresholdRatio(3, 5).WithDelay(time.Microsecond).OnSuccess(look).OnFailure(look).
+			OnOpen(lookEv).OnClose(lookEv).OnHalfOpen(lookEv).OnStateChanged(lookEv).Build()
 		rl := ratelimiter.SmoothBuilderWithMaxRate[int](time.Microsecond).WithMaxWaitTime(time.Millisecond).Build()
 		bh := bulkhead.Builder[int](4).WithMaxWaitTime(time.Millisecond).Build()
 		cache := &syncCache{m: map[string]int{}}
@@ -259,6 +265,36 @@ func runStress(t *testing.T, thorough bool) []stressResult {
 			}()
 		}
 		wg.Wait()
+		// ... and executions that complete by themselves while another goroutine calls Cancel() at about the same time (a watchdog
+		// firing at or after completion), and again after the result was read: Cancel() has no effect on an execution that is done
+		ex2 := failsafe.NewExecutor[int](retrypolicy.Builder[int]().WithMaxRetries(1).Build())
+		for g := 0; g < 8; g++ {
+			g := g
+			wg.Add(1)
+			go func() {
+				defer wg.Done()
+				for i := 0; i < iters/3+1; i++ {
+					n.Add(1)
+					ar := ex2.GetAsync(func() (int, error) { time.Sleep(time.Duration((i+g)%4) * 5 * time.Microsecond); return 7, nil })
+					cd := make(chan struct{})
+					go func() {
+						defer close(cd)
+						time.Sleep(time.Duration(i%5) * 5 * time.Microsecond)
+						ar.Cancel()
+					}()
+					r, err := ar.Get()
+					if !(err == nil && r == 7) && !errors.Is(err, failsafe.ErrExecutionCanceled) {
+						bad.Add(1)
+					}
+					<-cd
+					ar.Cancel()
+					if r2, err2 := ar.Get(); r2 != r || (err2 == nil) != (err == nil) || !ar.IsDone() {
+						bad.Add(1)
+					}
+				}
+			}()
+		}
+		wg.Wait()
 		return int(n.Load()), int(bad.Load()), ""
 	})
 	// 5. one retry policy with jitter, jitter factor and a random delay shared by many executions (random draws)
@@ -324,6 +360,47 @@ func runStress(t *testing.T, thorough bool) []stressResult {
 		late.Wait()
 		d, _ := detail.Load().(string)
 		return int(n.Load()), int(bad.Load()), d
+	})
+	// 8. a breaker whose OnOpen / OnStateChanged listeners look at the metrics their event carries (what a listener that logs "opened
+	// after N failures" does) and take a moment, while executions admitted before the transition are still recording their
+	// results: what the event shows does not change while the listener looks at it
+	watchdogFor(60*time.Second, "breaker-event-metrics", func() (int, int, string) {
+		var n, bad atomic.Int64
+		look := func(e circuitbreaker.StateChangedEvent) {
+			m := e.Metrics()
+			a := [3]uint{m.Executions(), m.Failures(), m.Successes()}
+			time.Sleep(20 * time.Microsecond)
+			b := [3]uint{m.Executions(), m.Failures(), m.Successes()}
+			if a != b {
+				bad.Add(1)
+			}
+		}
+		cb := circuitbreaker.Builder[int]().WithFailureThresholdRatio(3, 6).WithDelay(5 * time.Microsecond).
+			OnOpen(look).OnHalfOpen(look).OnClose(look).OnStateChanged(look).Build()
+		ex := failsafe.NewExecutor[int](cb)
+		var wg sync.WaitGroup
+		for g := 0; g < 12; g++ {
+			g := g
+			wg.Add(1)
+			go func() {
+				defer wg.Done()
+				for i := 0; i < iters; i++ {
+					n.Add(1)
+					ex.Get(func() (int, error) {
+						time.Sleep(time.Duration((i+g)%3) * 10 * time.Microsecond)
+						if (i+g)%2 == 0 {
+							return 0, errA
+						}
+						return 1, nil
+					})
+					if i%16 == 0 {
+						cb.RecordFailure()
+					}
+				}
+			}()
+		}
+		wg.Wait()
+		return int(n.Load()), int(bad.Load()), "the metrics of a state-change event changed while its listener was looking at them"
 	})
 	// 7. the execution is cancelled -- by an enclosing Timeout's timer goroutine, or by the caller from another goroutine -- while
 	// the retry policy's own OnFailure listener runs: between the retry loop's look at the cancellation and RecordResult.  The
